@@ -2,8 +2,8 @@
    translate/py2coq_static.py) and the models Model/Static.v + Model/Fs.v.
 
    1. The value types of the generated code (responses, bodies, paths built with `/`).
-   2. PurePath operations on component lists (no filesystem access): pjoin, parent, name, with_name, suffix,
-      relative_to.  The translator's PURE table names them.
+   2. PurePath operations on component lists (no filesystem access): parent, with_name, suffix, relative_to
+      (pjoin and path_name are the model's own: Model/Static.v).  The translator's PURE table names them.
    3. `pylib`: the record of the world-dependent library functions (pathlib / os / secrets /
       canonical_path_segments / generate_directory_listing) that the generated functions take as their first
       argument.  The translator's LIB table names the fields.
@@ -29,11 +29,8 @@ Record gresp := mk_gresp { g_status : Z; g_meta : str; g_body : gbody }.
 Definition upath := (path * list str)%type.
 
 (* ------------------------------------------------------------------ 2. PurePath operations *)
-(* base / s : an absolute right operand replaces the base *)
-Definition pjoin (p : path) (s : str) : upath :=
-  if prefixb [ch_slash] s then ([], comps s) else (p, comps s).
+(* base / s is Model.Static.pjoin (an absolute right operand replaces the base); p.name is Model.Static.path_name *)
 Definition path_parent (p : path) : path := removelast p.
-Definition path_name (p : path) : str := match rev p with x :: _ => x | [] => [] end.
 (* p.with_name(n): ValueError if p has no name (the new name is built by the caller from the old one and is
    taken to be a valid file name) *)
 Definition path_with_name (p : path) (n : str) : res path :=
@@ -261,122 +258,6 @@ Definition contained (root : path) (r : res (option path)) : res (option path) :
   | Ok (Some t) => if path_prefixb root t then Ok (Some t) else Ok None
   | x => x
   end.
-(* index file names: no NUL, no slash, and none of them resolves (from any directory) to a path inside the root
-   that has a component of more than 255 bytes *)
-Definition index_names_ok (c : scfg) (f : fs) : Prop :=
-  forall i, In i (s_indices c) ->
-    mem 0%N i = false /\ mem ch_slash i = false /\
-    forall d ip, resolve_fully f d [i] = FPath ip -> path_prefixb (s_root c) ip = true -> name_too_long ip = false.
-(* the temporary file of an upload to t: ".<name>.<token>.tmp" beside t *)
-Definition tmp_name (name tok : str) : str := lit "." ++ name ++ lit "." ++ tok ++ lit ".tmp".
-Definition tmp_of (t : path) (tok : str) : path := removelast t ++ [tmp_name (path_name t) tok].
-(* its name is not over-long and nothing of that name exists *)
-Definition tmp_ok (f : fs) (t : path) (tok : str) : Prop :=
-  name_too_long (tmp_of t tok) = false /\ lstat f (tmp_of t tok) = None.
+(* the temporary file of an upload to t, ".<name>.<token>.tmp" beside t, is Model.Static.tmp_of *)
 Definition upload_out (x : res gresp * fs) : uout * fs := (uout_of (fst x), snd x).
 Definition model_out (x : uout * fs) : uout * fs := (forget_meta (fst x), snd x).
-
-(* ------------------------------------------------------------------ 7. the models with the proposed corrections *)
-(* Model.Static.try_indices / handle / handle_upload with the changes that make the ties unconditional (reported to
-   the coordinator as a diff; Model/Static.v itself is unchanged).  Differences are marked (+). *)
-Fixpoint try_indices_fixed (c : scfg) (f : fs) (d : path) (idx : list str) : option sout :=
-  match idx with
-  | [] => None
-  | i :: rest =>
-      (* (+) `d / i` as pathlib joins it: an absolute name replaces d, slashes separate components;
-         (+) an embedded NUL makes resolve() raise ValueError: the name is skipped *)
-      let u := pjoin d i in   (* = if prefixb [ch_slash] i then ([], comps i) else (d, comps i) *)
-      if existsb (mem 0%N) (snd u) then try_indices_fixed c f d rest else
-      match resolve_fully f (fst u) (snd u) with
-      | FNone => try_indices_fixed c f d rest
-      | FFuel => Some OOom
-      | FPath ip =>
-          if path_prefixb (s_root c) ip then
-            (* (+) is_file() does not swallow ENAMETOOLONG: the exception leaves handle() *)
-            if name_too_long ip then Some (ORaise (lit "oserror")) else
-            match lstat f ip with
-            | Some (File _) => Some (serve_file c f ip)
-            | _ => try_indices_fixed c f d rest
-            end
-          else try_indices_fixed c f d rest
-      end
-  end.
-
-Definition handle_fixed (c : scfg) (f : fs) (url_path : str) : sout :=
-  match unquote url_path with
-  | OutOfModel | Err _ _ => OOom
-  | Ok up =>
-    match canon_strict (comps up) [] with
-    | None => OStatus 51 (lit "Not found")
-    | Some segs =>
-    if existsb (mem 0%N) segs then OStatus 51 (lit "Not found") else
-    match resolve_fully f (s_root c) segs with
-    | FNone => OStatus 51 (lit "Not found")
-    | FFuel => OOom
-    | FPath fp =>
-        if negb (path_prefixb (s_root c) fp) then OStatus 51 (lit "Not found")
-        else if name_too_long fp then ORaise (lit "oserror")
-        else match lstat f fp with
-             | Some Dir =>
-                 match try_indices_fixed c f fp (s_indices c) with
-                 | Some o => o
-                 | None => if s_listing c then listing f fp else OStatus 51 (lit "Not found")
-                 end
-             | _ => serve_file c f fp
-             end
-    end
-    end
-  end.
-
-(* (+) tok: the random part of the temporary file's name *)
-Definition handle_upload_fixed (c : ucfg) (f : fs) (r : ureq) (flt : fault) (tok : str) : uout * fs :=
-  if negb (token_ok c (q_token r)) then (UResp 60 (lit "Valid authentication token required"), f)
-  else if (u_max c <? q_size r)%N then (UResp 50 (lit "Upload exceeds maximum size"), f)
-  else if match u_types c with Some (t :: ts) => negb (existsb (eqb (q_mime r)) (t :: ts)) | _ => false end
-       then (UResp 59 (lit "MIME type not allowed"), f)
-  else if (q_size r =? 0)%N then
-    if negb (u_delete c) then (UResp 50 (lit "Delete operations are disabled"), f)
-    else match resolve_target c f (q_path r) with
-         | OutOfModel => (UOom, f)
-         | Err k _ => (URaise k, f)
-         | Ok None => (UResp 59 (lit "Invalid path"), f)
-         | Ok (Some t) =>
-             if name_too_long t then (URaise (lit "oserror"), f) else
-             match lstat f t with
-             | None => (UResp 51 (lit "Resource not found"), f)
-             | Some Dir => (UResp 40 (lit "Delete failed"), f)
-             | Some _ => (UResp 20 (lit "text/gemini"), remove_node f t)
-             end
-         end
-  else
-    match resolve_target c f (q_path r) with
-    | OutOfModel => (UOom, f)
-    | Err k _ => (URaise k, f)
-    | Ok None => (UResp 59 (lit "Invalid path"), f)
-    | Ok (Some t) =>
-        (* (+) only the PARENT's components stop mkdir() *)
-        if name_too_long (removelast t) then (UResp 40 (lit "Upload failed"), f) else
-        match mkdirs (S (length t)) f [] (removelast t) with
-        | None => (UResp 40 (lit "Upload failed"), f)
-        | Some f1 =>
-            match t with
-            | [] => (UResp 40 (lit "Upload failed"), f1)
-            | _ =>
-                (* (+) the temporary name must be usable (this covers an over-long last component of t: the
-                   directories exist by now) and free (open(.., "xb")); nothing but the directories is left behind *)
-                if name_too_long (tmp_of t tok) then (UResp 40 (lit "Upload failed"), f1) else
-                match lstat f1 (tmp_of t tok) with
-                | Some _ => (UResp 40 (lit "Upload failed"), f1)
-                | None =>
-                    match flt with
-                    | Some _ => (UResp 40 (lit "Upload failed"), f1)
-                    | None =>
-                        match lstat f1 t with
-                        | Some Dir => (UResp 40 (lit "Upload failed"), f1)
-                        | _ => (UResp 20 (lit "text/gemini"), set_node f1 t (File (q_content r)))
-                        end
-                    end
-                end
-            end
-        end
-    end.
